@@ -41,7 +41,7 @@ def main(tier, seed):
     standard_proof_phase(rep, "C04", supcheck.MODEL_FILES + KC.KNN_FILES + ["Props/C04_knn"])
     rng = random.Random(seed + 4)
     nviol = 0
-    per_metric = 4 if tier == "quick" else 60
+    per_metric = 4 if tier == "quick" else 250
     terms, expect, insts = [], [], []
     stats = dict(sup=0, knn=0, metrics_used={}, rejected=0)
     for metric in ELIGIBLE:
@@ -79,7 +79,7 @@ def main(tier, seed):
     bad = supcheck.corr(rep, "correspondence Model/Sup.sup_fit vs SupervisedOPF.fit on tie-free instances of every eligible metric", "C04", terms, expect, insts)
     rep.corr["sup_tie_free"] = dict(cases=len(terms), disagreements=None if bad is None else len(bad), distribution=stats)
     # ---- KNN-supervised: any data, ties included, any max_k
-    NK = 80 if tier == "quick" else 2000
+    NK = 80 if tier == "quick" else 6000
     for i in range(NK):
         it = K.gen_split_inst(rng, nmax=11 if tier == "quick" else 15)
         d = it.desc()
